@@ -239,6 +239,9 @@ func runC14(c *Ctx) {
 		}
 	}
 
+	c.Rule("C14-D4", "a heartbeat queued at the upgrade is not lost (shared with C07-D2): every packet still queued on the old transport except NOOP — PING included — is re-sent on the new transport inside the swap region; a dropped PING makes a live, answering peer time out", 12)
+	swapRegion(c, "C14-D4")
+
 	c.Rule("C14-D3", "heartbeat mailboxes are buffered: pongChan and pingChan are signalled with a non-blocking send, so capacity >= 1 is needed for a pong/ping that arrives while the loop is not yet waiting", 2)
 	checkBufferedSignal(c, "C14-D3", []chanField{{"eio", "serverSocket", "pongChan"}, {"eio", "clientSocket", "pingChan"}}, nil)
 }
